@@ -367,7 +367,19 @@ let (mut g, mut e) = (got.clone(), exp.clone());
             // canonical inputs; compact_cover = C08 (cover, duplicates, order independence),
             // compact_max = C10 (maximal / idempotent / canonical on non-overlapping inputs)
             let l = plist(&a[0]);
+            if a.len() > 1 {
+                // optional second argument: IDs on which other public calls are made first (results ignored).  compact's
+                // result must not depend on them (a memo inside a callee keyed too coarsely shows only so: seeded change C08-11)
+                for p in plist(&a[1]) {
+                    let _ = guard(|| a5::cell_to_parent(p, None));
+                    let _ = guard(|| a5::cell_to_children(p, None));
+                    let _ = guard(|| a5::get_resolution(p));
+                }
+            }
             if !l.iter().all(|x| canonical(*x)) {
+                // not an input of this property.  The call is still made (result ignored), so that the NEXT input of the
+                // search sequence sees whatever state a rejected call leaves behind (seeded change C10-11)
+                let _ = guard(|| a5::compact(&l));
                 return Ok(());
             }
             let cells: Vec<Cell> = l.iter().map(|x| dec(*x).unwrap()).collect();
@@ -1161,6 +1173,39 @@ pub fn generate(op: &str, rng: &mut Rng, budget: u64, f: &mut dyn FnMut(Vec<Stri
             // Generated inputs stay inside the class on which the contracts are proved: no resolution-0
             // (and no world) cell among the inputs.  Inputs mixing base cells with other faces' quintants
             // are the recorded findings (known_findings.json) and are replayed separately.
+            // Boundary values first: at EVERY resolution 0..=29 one complete sibling group (must merge), the same group
+            // with one member missing (must stay), and a complete two-level subtree - a per-level table or a special case
+            // that is wrong for one level only (e.g. the finest) shows only here (seeded change C10-10)
+            for r in 0..=29i32 {
+                for rep in 0..3 {
+                    let parent = if r == 0 {
+                        WORLD
+                    } else {
+                        let lim = s_limit(r - 1);
+                        Cell {
+                            o: rng.below(12) as u8,
+                            seg: if r == 1 { 0 } else { rng.below(5) as usize },
+                            s: match rep { 0 => 0, 1 => lim - 1, _ => rng.below(lim) },
+                            r: r - 1,
+                        }
+                    };
+                    let group = kids(parent, r);
+                    let mut inputs: Vec<Vec<Cell>> = vec![group.clone()];
+                    let mut partial = group.clone();
+                    partial.remove(rng.below(group.len() as u64) as usize);
+                    inputs.push(partial);
+                    if r < 29 && r >= 1 {
+                        inputs.push(kids(parent, r + 1));
+                    }
+                    for cells in inputs {
+                        let mut l: Vec<u64> = cells.iter().map(|c| enc(*c)).collect();
+                        shuffle(&mut l, rng);
+                        if !f(vec![flist(&l)]) {
+                            return;
+                        }
+                    }
+                }
+            }
             for it in 0..budget {
                 let cap = 40 + rng.below(200) as usize;
                 let mut cells = rand_antichain(rng, cap);
@@ -1261,7 +1306,48 @@ pub fn generate(op: &str, rng: &mut Rng, budget: u64, f: &mut dyn FnMut(Vec<Stri
                         l.push(x);
                     }
                 }
+                if it % 7 == 3 && !cells.is_empty() && cells[0].r >= 1 {
+                    // a REJECTED call first: the other members of the first cell's sibling group, then a bit pattern that is
+                    // not a cell.  Nothing of it may leak into the call that follows (history independence of the result)
+                    let me = cells[0];
+                    let mut poison: Vec<u64> = kids(anc(me, me.r - 1), me.r).iter().filter(|k| **k != me).map(|k| enc(*k)).collect();
+                    let not_a_cell = 0xfe00_0000_0000_0000u64;
+                    if dec(not_a_cell).is_none() {
+                        poison.push(not_a_cell);
+                        if !f(vec![flist(&poison)]) {
+                            return;
+                        }
+                    }
+                }
                 shuffle(&mut l, rng);
+                if it % 5 == 2 && !l.is_empty() {
+                    // the same input after other calls on IDs that look like its own: neighbouring IDs at the stride of the
+                    // cell's level (the other members of its group and of the neighbouring groups), the same position on the
+                    // neighbouring faces, its parent and its first child
+                    let mut pre: Vec<u64> = vec![];
+                    for &x in l.iter().take(3) {
+                        let r = res_of(x);
+                        let stride = if r < 2 { 1u64 << 58 } else { 1u64 << (marker_pos(r) + 1) };
+                        for j in 1..=5u64 {
+                            pre.push(x.wrapping_sub(j.wrapping_mul(stride)));
+                            pre.push(x.wrapping_add(j.wrapping_mul(stride)));
+                        }
+                        if let Some(c) = dec(x) {
+                            if c.r >= 0 {
+                                pre.push(enc(Cell { o: (c.o + 1) % 12, ..c }));
+                                pre.push(enc(Cell { o: (c.o + 11) % 12, ..c }));
+                                pre.push(enc(anc(c, c.r - 1)));
+                            }
+                            if c.r < 29 {
+                                pre.push(enc(kids(c, c.r + 1)[0]));
+                            }
+                        }
+                    }
+                    shuffle(&mut pre, rng);
+                    if !f(vec![flist(&l), flist(&pre)]) {
+                        return;
+                    }
+                }
                 if !f(vec![flist(&l)]) {
                     return;
                 }
